@@ -10,7 +10,7 @@
                          ParseSequenceSetWithDB, rows walked in order, wanted ones answered
     - [is_sequence_set], [matches_sequence_set], [search_set]
                          internal/server/message/message.go (SEARCH)
-    - [uidsearch_set]    internal/server/uid/uid.go handleUIDSearch, branch "UID "
+    - [uidsearch_set]    UID SEARCH UID <set> through message.SearchSelectedMailbox
     - [dispatch_copy_args], [copy_set_arg], [plain_copy]
                          internal/server/connection.go (case "COPY") + HandleCopy:
                          which element of [parts] the handler takes as the set
@@ -191,17 +191,12 @@ Definition search_set (token : str) (total : Z) : list Z :=
   if is_sequence_set t then filter (fun i => matches_sequence_set i t total) (zrange 1 total)
   else zrange 1 total.
 
-(** ---- UID SEARCH UID <set> (handleUIDSearch, branch Contains "UID ") ---- *)
+(** ---- UID SEARCH UID <set> ---- *)
+(** uid.handleUIDSearch -> message.SearchSelectedMailbox (byUID) -> evaluateTokens,
+    case "UID": matchesUIDSet(msg.uid, token, msg.maxUID); the matching UIDs are
+    returned in mailbox order (since e09cd6b) *)
 Definition uidsearch_set (set : str) (uids : list Z) : list Z :=
-  if contains_byte set c_colon then
-    match split_byte set c_colon with
-    | [a; b] =>
-      let start := atoi_lossy a in
-      let end_ := atoi_lossy b in
-      filter (fun u => (start <=? u) && (u <=? end_)) uids
-    | _ => []
-    end
-  else [].
+  filter (fun u => matches_sequence_set u set (max_uid_of uids)) uids.
 
 (** ---- dispatcher + HandleCopy ---- *)
 (** connection.go: [message.HandleCopy(s, conn, tag, parts[1:], state)] with
